@@ -1,7 +1,8 @@
 #!/usr/bin/env python3
 """Auxiliary source scan for C13 (NOT part of the proof).
 
-Lists every place in the anchored Rust files where a std `HashMap`/`HashSet` is *iterated*
+Lists every place in the non-test Rust sources of the workspace (the anchored files and everything else under
+crates/*/src: lexer, parser, lowering, later passes, Go back end, printers) where a std `HashMap`/`HashSet` is *iterated*
 (`for … in x`, `.iter()`, `.keys()`, `.values()`, `.into_iter()`, `.drain()`, `.extend(x)` …) and
 classifies it with the hand-written table below:
 
@@ -93,6 +94,8 @@ TABLE = {
             "that order (seeded change C13-capture-map-diagnostic-order; the tree keeps an IndexMap here)"),
     ("check.rs", "", "field_map.keys()"):
         (O, "joined into the text of `Struct pattern … has unknown fields: …` (fixed: written order)"),
+    ("hir_pprint.rs", "to_doc", "RcDoc::concat(self.packages.iter().enumerate().map("):
+        (N, "`ProjectHir.packages` is a Vec (name collision with the map-valued field `HirTables.packages` of hir.rs)"),
     # ---- go/dce.rs
     ("dce.rs", "dce_block_with_live", "for u in &used_rhs {"): (N, "inserts into the liveness set"),
     ("dce.rs", "dce_block_with_live", "live.extend(cases_live_in);"): (N, "set union"),
@@ -214,8 +217,26 @@ def classify(site):
     return "unclassified", "not in tools/hashiter.py TABLE"
 
 
+def all_compiler_sources(repo):
+    """every Rust source of the workspace crates that is not a test: the anchored files first, then the rest (passes after
+    the typer, the Go back end, the printers …) — a hash collection introduced anywhere on the way to an output is listed"""
+    files = list(FILES)
+    crates = os.path.join(repo, "crates")
+    roots = [os.path.join(crates, "compiler", "src")] + sorted(
+        os.path.join(crates, c, "src") for c in (os.listdir(crates) if os.path.isdir(crates) else []) if c != "compiler")
+    for root in roots:
+        for d, ds, fs in os.walk(root):
+            ds[:] = sorted(x for x in ds if x != "tests")
+            for f in sorted(fs):
+                rel = os.path.relpath(os.path.join(d, f), repo)
+                if f.endswith(".rs") and rel not in files:
+                    files.append(rel)
+    return files
+
+
 def main():
     repo = sys.argv[1] if len(sys.argv) > 1 else os.environ.get("GV_REPO", "/repo")
+    FILES[:] = all_compiler_sources(repo)
     out = {"files": [], "sites": [], "missing_files": []}
     for rel in FILES:
         pth = os.path.join(repo, rel)
